@@ -65,6 +65,12 @@ def ensure_native(log=print):
         envb = dict(ENV, CARGO_TARGET_DIR=os.path.join(BUILD, 'bin'))
         rc, o = sh('cargo build --offline --bin cicada', cwd=REPO, env=envb)
         if rc != 0: raise RuntimeError('cicada build failed:\n' + o[-3000:])
+    hd = os.path.join(BUILD, 'helpers'); os.makedirs(hd, exist_ok=True)
+    src = os.path.join(VERIF, 'helpers/src/fdreport.c')
+    if not os.path.exists(os.path.join(hd, 'fdreport')) or os.path.getmtime(os.path.join(hd, 'fdreport')) < os.path.getmtime(src):
+        rc, o = sh('clang -O1 -o %s/fdreport %s' % (hd, src))
+        if rc != 0: raise RuntimeError('helper build failed: ' + o[-500:])
+        for i in range(6): subprocess.run(['cp', os.path.join(hd, 'fdreport'), os.path.join(hd, 'c%d' % i)])
     log('native side built in %.1fs' % (time.time() - t))
 
 _PROG = None
